@@ -116,7 +116,7 @@ def describe(binary):
     return res[0], res[1] or ''
 
 
-def run_shard(binary, lines, tag):
+def run_shard(binary, lines, tag, test='TestVerifC02'):
     """Run the probe on `lines`; a crash (SIGSEGV in patched code, fatal stack overflow) costs only the crashed history."""
     ops = os.path.join(C.BUILD, f'c02.{tag}.ops')
     outp = os.path.join(C.BUILD, f'c02.{tag}.impl')
@@ -125,7 +125,7 @@ def run_shard(binary, lines, tag):
     frm = 0
     crashes = 0
     while frm < len(lines):
-        rc, log = C.run_probe(binary, 'TestVerifC02', ops, outp, env={'VERIF_FROM': str(frm)}, timeout=900)
+        rc, log = C.run_probe(binary, test, ops, outp, env={'VERIF_FROM': str(frm)}, timeout=900)
         got = C.read_indexed(outp, len(lines))
         nxt = len(lines)
         for i in range(frm, len(lines)):
@@ -264,6 +264,26 @@ def oracle(hist, obs, fixok):
     return None
 
 
+# ------------------------------------------------------------------ oracle-only lane: a handle used again after its Cancel / Reset
+
+STALE = [f'c02.stale {via} {t} {first} {undo} {second}' for via, t in (('f', 3), ('f', 0), ('m', 8), ('f', 7))
+         for first in 'ar' for undo in 'cx' for second in 'ar']
+
+
+def stale_oracle(line, obs):
+    """Re-mocking through the same handle after Cancel/Reset must work like the first time (or at least not kill the process)."""
+    _, via, t, first, undo, second = line.split()
+    cls = {'a': 'c', 'r': 's'}
+    want = f'{cls[first]}1,o,{cls[second]}2,o'.replace('s1', 's').replace('s2', 's') + ' end d=-'
+    if obs is None:
+        return 'no observation'
+    if obs.startswith('crash'):
+        return 'the process died: ' + obs
+    if obs != want:
+        return f'observed {obs}, wanted {want}'
+    return None
+
+
 # ------------------------------------------------------------------ run
 
 def execute(hists, tag='run'):
@@ -354,7 +374,7 @@ def run(tier):
     ok, msg, changed = C.regen(GEN)
     proof = C.prove('C02', leanchecker=(tier == 'thorough')) if ok else {
         'ok': False, 'failed': [('translator', msg)], 'obligations': 0, 'discharged': 0, 'cmds': [], 'axioms': {}}
-    n = 300 if tier == 'quick' else 20000
+    n = 1500 if tier == "quick" else 40000
     hists = list(CORPUS) + MALFORMED
     regress = os.path.join(C.HARNESS, 'c02', 'regress.txt')
     if os.path.exists(regress):
@@ -381,6 +401,15 @@ def run(tier):
         out.violation(f'history `{hs}`: {oracle(hs, i2[0], fx) or why}',
                       {'kind': 'impl-oracle', 'ops': [hs], 'original': h, 'observed': i2[0], 'model': m2[0] if m2 else None,
                        'why': why, 'how': 'python3 check.py C02 --replay <this file>'})
+    # 1b. oracle-only lane (not modelled): the same handle used again after its own Cancel / the builder's Reset
+    binary = build_probe()
+    stale_obs = run_shard(binary, STALE, 'stale', test='TestVerifC02Stale')
+    stale_bad = [(l, o, why) for l, o in zip(STALE, stale_obs) for why in [stale_oracle(l, o)] if why]
+    if stale_bad:
+        l, o, why = stale_bad[0]
+        out.violation(f'`{l}` (m := mocker for target; mock; undo; mock again through the same handle m; Reset): {why}',
+                      {'kind': 'impl-oracle-stale-handle', 'ops': [l], 'observed': o, 'why': why, 'failing_lines': len(stale_bad),
+                       'how': 'python3 check.py C02 --replay <this file>'}, key='stale-handle-after-cancel')
     # 2. correspondence
     if model is None:
         proof['failed'].append(('goomdrv', 'driver does not build: ' + derr[-500:]))
@@ -417,6 +446,7 @@ def run(tier):
         'rule': 'one evaluation = one history step, after which the whole executable image (see layout.text bytes) is compared with the snapshot and '
                 'all 10 targets + 3 neighbours are called; non-trivial = distinct history in which at least one entry jump was observed in the image',
         'distribution': dict(stats(hists, impl), layout=layout, env=envline, gen_modules_changed_this_run=changed),
+        'stale_handle_lane': {'lines': len(STALE), 'failing': len(stale_bad), 'note': 'oracle on the implementation only; not part of the model'},
         'samples': [{'hist': hists[i], 'impl': impl[i], 'model': model[i] if model else None} for i in (0, len(hists) // 2, len(hists) - 1)],
     }
     out.assumptions = ['the CPU executes the bytes that are in the image (behaviour is additionally observed by calling)',
@@ -426,6 +456,14 @@ def run(tier):
 
 def replay(body):
     hists = body.get('ops', [])
+    if hists and hists[0].startswith('c02.stale'):
+        obs = run_shard(build_probe(), hists, 'stale-replay', test='TestVerifC02Stale')
+        rc = 0
+        for l, o in zip(hists, obs):
+            why = stale_oracle(l, o)
+            print(f'{l}\n  impl : {o}\n  oracle: {why or "ok"}')
+            rc = rc or (1 if why else 0)
+        return rc
     impl, model, _, envline, _, fixok = execute(hists, tag='replay')
     rc = 0
     for i, h in enumerate(hists):
